@@ -3,18 +3,14 @@
 package checks
 
 import (
-	"io"
 	"sync"
 
-	"k8s.io/klog/v2"
+	"furikoverif/internal/sim"
 )
 
 var silenceOnce sync.Once
 
 // silenceLogs turns klog off: the controllers log every step, which slows runs by two orders of magnitude.
 func silenceLogs() {
-	silenceOnce.Do(func() {
-		klog.LogToStderr(false)
-		klog.SetOutput(io.Discard)
-	})
+	silenceOnce.Do(sim.SilenceLogs)
 }
